@@ -484,11 +484,51 @@ def samplers(ctx, facts):
         retdef = [bb for bb, t in b.calls() if t["d"] == [0]] + [bb for bb, idx, st in b.iter_assigns() if st["p"] == [0]]
         okl = bool(retdef) and all(flow.holds(b, dom, x, lower) for x in retdef)
         oku = bool(retdef) and all(flow.holds(b, dom, x, upper) for x in retdef)
+        okr = None
+        if not (okl and oku) and retdef and len(draws) == 1:
+            # other ways of writing the acceptance test (`match u32::try_from(s) { Ok(v) if v <= self.shift_doubled => return v, _ => {} }`):
+            # evaluate everything that dominates the return - comparisons, and the Ok / Err arm of a try_from conversion of
+            # the draw to an unsigned type (Ok <=> draw >= 0) - for draws -3..8 and 2*shift 0..5
+            from rules.C13 import guard_holds, ieval as _iev, NoEval as _NE
+            from rules.C14 import malsec_leaves_all
+            from rules.C17 import variant_arms
+            SD = ("arg", 1, "shift_doubled")
+            eg_ = list(flow.edge_guards(b))
+            conv = []
+            for sw_, pl_, arms_ in variant_arms(b, "std::result::Result", facts):
+                src_ = flow.strip_casts(flow.expr_of(b, {"cp": pl_}, max_depth=8))
+                if src_[0] == "call" and re.search(r"(TryFrom::try_from|TryInto::try_into)$", src_[1]) and is_draw(strip_lossless(src_[2][0])) and "Ok" in arms_:
+                    conv.append((arms_["Ok"], ("Ge", src_[2][0], ("const", 0))))
+                    if "Err" in arms_:
+                        conv.append((arms_["Err"], ("Lt", src_[2][0], ("const", 0))))
+            allg = eg_ + conv
+            draw_nodes = set()
+            for tgt_, f_ in allg:
+                for x in malsec_leaves_all(("t", f_[1], f_[2] if f_[2] is not None else ("const", 0))):
+                    if isinstance(x, tuple) and x and x[0] == "call" and x[1].endswith("Distribution::sample"):
+                        draw_nodes.add(x)
+            try:
+                acc_ok = True
+                for sd_ in range(0, 6):
+                    for dr_ in range(-3, 9):
+                        env = {SD: sd_}
+                        env.update({n_: dr_ for n_ in draw_nodes})
+                        accepted = all(all(guard_holds(f_, env) for tgt_, f_ in allg if flow.dominates(dom, tgt_, x)) for x in retdef)
+                        if accepted != (0 <= dr_ <= sd_):
+                            acc_ok = False
+                okl = oku = acc_ok
+                # a rejected draw leads back to the draw and never to a return
+                if acc_ok:
+                    dbb = draws[0][0]
+                    okr = all(r_ not in b.reachable(dbb, avoid=frozenset(retdef)) or r_ in retdef for r_ in rets) and dbb in b.reachable(b.succs(dbb)[0] if b.succs(dbb) else dbb)
+            except (_NE, KeyError, TypeError):
+                pass
         ctx.ob("SHAPE-sampler", "TruncatedDoubleGeometric::sample:accept-iff-0<=draw", okl, "accepted only if draw >= 0" if okl else "a draw is accepted without the dominating test draw >= 0", site_of(b))
         ctx.ob("SHAPE-sampler", "TruncatedDoubleGeometric::sample:accept-iff-draw<=2shift", oku, "accepted only if draw <= 2*shift" if oku else "a draw is accepted without the dominating test draw <= shift_doubled", site_of(b))
         # rejecting edges redraw
-        rej = [tgt for tgt, f in flow.edge_guards(b) if (f[0] in ("Lt",) and lower(("Ge", f[1], f[2]))) or (f[0] == "Gt" and upper(("Le", f[1], f[2])))]
-        okr = len(rej) >= 2 and draws and all(not any(r in b.reachable(tgt, avoid=frozenset([draws[0][0]])) for r in rets) and draws[0][0] in b.reachable(tgt) for tgt in rej)
+        if okr is None:
+            rej = [tgt for tgt, f in flow.edge_guards(b) if (f[0] in ("Lt",) and lower(("Ge", f[1], f[2]))) or (f[0] == "Gt" and upper(("Le", f[1], f[2])))]
+            okr = len(rej) >= 2 and draws and all(not any(r in b.reachable(tgt, avoid=frozenset([draws[0][0]])) for r in rets) and draws[0][0] in b.reachable(tgt) for tgt in rej)
         ctx.ob("SHAPE-sampler", "TruncatedDoubleGeometric::sample:reject-redraws", bool(okr), "an out-of-range draw is discarded and a fresh one is taken" if okr else "an out-of-range draw does not lead to a fresh draw (it is returned, clamped or the loop ends)", site_of(b))
 
 
@@ -575,6 +615,30 @@ def truncation_formula(ctx, facts):
             start_ok = len(starts) == 1 and all(_ie(starts[0], {("arg", 1): d}) == d for d in range(1, 8))      # `big_delta..`, or anything equal to it for big_delta >= 1
         except _NE:
             start_ok = False
+    # iterator form: `(big_delta..).find(|&n| small_delta >= right_hand_side(n, big_delta, epsilon)).expect(..)`
+    find_form = None
+    old_cd = flow.CLOSURE_DEFS
+    flow.CLOSURE_DEFS = True
+    try:
+        r0 = flow.strip_casts(flow.expr_of(f_, {"cp": [0]}, max_depth=12))
+        while r0[0] == "call" and re.search(r"Option::<T>::(expect|unwrap)$", r0[1]):
+            r0 = flow.strip_casts(r0[2][0])
+        if r0[0] == "call" and r0[1].endswith("Iterator::find") and len(r0[2]) == 2:
+            src_, cl_ = flow.strip_casts(r0[2][0]), r0[2][1]
+            cb_ = facts.bodies.get(cl_[1][1]) if cl_[0] == "agg" and isinstance(cl_[1], tuple) else None
+            if cb_ is not None and src_[0] == "agg" and src_[1] == ("std::ops::RangeFrom", "RangeFrom"):
+                from rules.C06 import upvar_sources
+                ups_ = {k_: flow.strip_casts(v_) for k_, v_ in upvar_sources(facts, f_, cb_.path).items()}
+                find_form = (src_[2][0], flow.strip_casts(flow.expr_of(cb_, {"cp": [0]}, max_depth=10)), ups_)
+    finally:
+        flow.CLOSURE_DEFS = old_cd
+    if find_form is not None and not start_ok:
+        from rules.C13 import ieval as _ie3, NoEval as _NE3
+        try:
+            start_ok = all(_ie3(find_form[0], {("arg", 1): d}) == d for d in range(1, 8))
+        except _NE3:
+            start_ok = False
+        loopv = ("closure-param",)
     ctx.ob("SHAPE-eq11", "find_smallest_n:scan-from-big_delta", start_ok, "n = big_delta, big_delta + 1, .." if start_ok else "the search for the truncation point does not scan n upwards from big_delta and return the scanned value", site_of(f_))
     pred = None
     for tgt, fct in flow.edge_guards(f_):
@@ -592,6 +656,15 @@ def truncation_formula(ctx, facts):
         rhs = fct[2] if fct[2][0] == "call" else fct[1]
         okp = okp and loopv is not None and flow.strip_casts(rhs[2][0]) == loopv and flow.strip_casts(rhs[2][1]) == ("arg", 1) and flow.strip_casts(rhs[2][2]) == ("arg", 2)
         okp = okp and any(flow.dominates(dom, tgt, rb) for rb in flow.ret_blocks(f_)) is not None
+    if find_form is not None and not okp:
+        pe, ups_ = find_form[1], find_form[2]
+        def _res(x):
+            x = flow.strip_casts(x)
+            return ups_.get(x[1], x) if x[0] == "upvar" else x
+        if pe[0] == "bin" and pe[1] in ("Ge", "Le"):
+            dl, rh = (pe[2], pe[3]) if pe[1] == "Ge" else (pe[3], pe[2])
+            rh = flow.strip_casts(rh)
+            okp = _res(dl) == ("arg", 3) and rh[0] == "call" and rh[1].endswith("right_hand_side") and flow.strip_casts(rh[2][0])[:2] == ("arg", 2) and _res(rh[2][1]) == ("arg", 1) and _res(rh[2][2]) == ("arg", 2)
     ctx.ob("SHAPE-eq11", "find_smallest_n:first-n-with-rhs<=delta", okp, "returns the first n with right_hand_side(n, big_delta, epsilon) <= small_delta" if okp else "the acceptance test of the search is not `small_delta >= right_hand_side(n, big_delta, epsilon)` (strict comparison or swapped arguments move the truncation point, i.e. the achieved delta)", site_of(f_))
     # right_hand_side
     ret = flow.strip_casts(flow.expr_of(r_, {"cp": [0]}, max_depth=40))
@@ -599,7 +672,10 @@ def truncation_formula(ctx, facts):
     pref = None
     if ok_mul:
         # one factor is the accumulated sum (a place / loop-carried local), the other the closed-form prefactor
-        cands = [x for x in (ret[2], ret[3]) if flow.strip_casts(x)[0] != "place"]
+        def _is_sum(x):
+            x = flow.strip_casts(x)
+            return x[0] == "place" or (x[0] == "call" and re.search(r"Iterator::(fold|sum)$", x[1]) is not None)
+        cands = [x for x in (ret[2], ret[3]) if not _is_sum(x)]
         pref = cands[0] if len(cands) == 1 else None
     okf, why = False, "right_hand_side is not prefactor * (loop-accumulated sum)"
     if pref is not None:
@@ -637,6 +713,30 @@ def truncation_formula(ctx, facts):
         for bb, t in r_.calls():
             if (F.callee(t)[0] or "").endswith("insecure::pow_u32") and "Iterator::next" in str(flow.expr_of(r_, t["args"][1], max_depth=25)) and "powf" in str(flow.expr_of(r_, t["args"][0], max_depth=25)):
                 acc = True
+    if not acc and ok_mul:
+        # `range.fold(0.0, |acc, k| acc + pow_u32(r, k))` or `range.map(|k| pow_u32(r, k)).sum()`
+        old_cd = flow.CLOSURE_DEFS
+        flow.CLOSURE_DEFS = True
+        try:
+            sm = [flow.strip_casts(flow.expr_of(r_, {"cp": [0]}, max_depth=40))]
+            sm = [flow.strip_casts(x) for x in (sm[0][2], sm[0][3]) if _is_sum(x) and flow.strip_casts(x)[0] == "call"]
+            if sm:
+                c_ = sm[0]
+                zero_ok = True
+                cl_ = None
+                if c_[1].endswith("Iterator::fold"):
+                    zero_ok = flow.strip_casts(c_[2][1]) in (("const", 0), ("const", 0.0)) or str(flow.strip_casts(c_[2][1])) in ("('const', 0)", "('const', 0.0)")
+                    cl_ = c_[2][2]
+                else:
+                    m_ = flow.strip_casts(c_[2][0])
+                    cl_ = m_[2][1] if m_[0] == "call" and m_[1].endswith("Iterator::map") else None
+                cb_ = facts.bodies.get(cl_[1][1]) if cl_ is not None and cl_[0] == "agg" and isinstance(cl_[1], tuple) else None
+                if cb_ is not None and zero_ok:
+                    body = str(flow.expr_of(cb_, {"cp": [0]}, max_depth=12))
+                    kparam = "('arg', 3)" if c_[1].endswith("Iterator::fold") else "('arg', 2)"
+                    acc = "insecure::pow_u32" in body and kparam in body and (not c_[1].endswith("Iterator::fold") or ("'Add'" in body and "('arg', 2)" in body))
+        finally:
+            flow.CLOSURE_DEFS = old_cd
     ctx.ob("SHAPE-eq11", "right_hand_side:accumulates-r^k", acc, "result += r^k for the loop's k" if acc else "the loop body does not accumulate r^k of the loop variable", site_of(r_))
 
 
